@@ -140,6 +140,8 @@ type UnitGen struct {
 	loadLog        map[string]loadedArr
 	axiomDone      map[string]bool
 	axiomConds     []string // branch conditions selecting the array version being axiomatised
+	termOrigin     map[string]*pathOrigin // guarded_path tracking (by term)
+	mapGuard       map[string]guardRef     // map values whose contents are protected by a mutex
 	assertDone     map[string]bool
 	assertCtr      map[string]int
 }
@@ -195,6 +197,10 @@ func (u *UnitGen) define(base string, t Term) Term {
 		u.defs = map[string]string{}
 	}
 	u.defs[n] = t.S
+	if u.termOrigin != nil {
+		// a name for a value reached along a guarded path is reached along the same path
+		u.inheritGuardedPath(Term{n, t.Sort}, t)
+	}
 	if u.newDefs != nil {
 		u.newDefs[n] = t.S
 	}
